@@ -300,6 +300,51 @@ def _drive(ctx, fs, kind, cap, ops, keytype):
                     st_["reordered"] = True
                     ctx.label("update-with-overflow")
                     ctx.label("eviction")
+                elif (not lru) and len(set(d) | set(upd)) > cap:
+                    # LFU, overflowing update: victims may be ambiguous (ties), so all outcomes of storing the items one by one are
+                    # enumerated per admissible count model, and the real update() must land in one of them
+                    as_dict = bool(len(pairs) % 2)
+                    arg = dict(pairs) if as_dict else list(pairs)
+                    seq = list(arg.items()) if as_dict else list(arg)
+                    states = {(p, m) for p, m in cands}
+                    for kk, vv in seq:
+                        nxt = set()
+                        for p, m in states:
+                            cnt = dict(m)
+                            if kk in cnt:
+                                cnt[kk] += 1
+                                nxt.add((p, frozenset(cnt.items())))
+                            elif len(cnt) >= cap:
+                                lo = min(cnt.values())
+                                for victim in [a for a, b in cnt.items() if b == lo]:
+                                    c2 = dict(cnt)
+                                    del c2[victim]
+                                    c2[kk] = 1
+                                    nxt.add((p, frozenset(c2.items())))
+                            else:
+                                cnt[kk] = 1
+                                nxt.add((p, frozenset(cnt.items())))
+                        states = nxt
+                        if len(states) > 4096:
+                            states = set(sorted(states, key=repr)[:4096])
+                    run("update", lambda: c.update(arg))
+                    ks_ = keys_now("update")
+                    keep = {(p, m) for p, m in states if {a for a, _ in m} == set(ks_)}
+                    if not ctx.need(bool(keep), "%s/update/differs-from-the-same-stores-one-by-one" % name,
+                                    lambda: "update(%r) on a cache of capacity %d holding %r left keys %r; no sequence of least-frequently-used evictions "
+                                    "for the same stores one by one ends with that key set" % (arg, cap, list(d), ks_)):
+                        raise _Stop()
+                    newd = {}
+                    last = dict(seq)
+                    for kk in ks_:
+                        newd[kk] = last[kk] if kk in last else d[kk]
+                    d.clear()
+                    d.update(newd)
+                    cands = keep
+                    for kk, _ in seq:
+                        st_["restored"].add(kk)
+                    ctx.label("update-with-overflow")
+                    ctx.label("eviction")
                 elif len(set(d) | set(upd)) <= cap:
                     run("update", lambda: c.update(pairs))
                     for kk, vv in pairs:
